@@ -1,4 +1,4 @@
-CONSTANTS R = 999
+CONSTANTS R = 500
           RS = 40
 INIT LInit
 NEXT LNext
